@@ -31,6 +31,31 @@ def search(tier, seed):
         if verdict(impl) != "INC":
             return total, "a proper prefix of a valid response is not reported incomplete:\ninput %s\nverdict %s" % (C.show_input(h), impl[:200]), samples, len(seen)
     samples.append("prefix %s -> %s" % (C.show_input(rows[len(rows) // 2][0], 60), rows[len(rows) // 2][1]))
+    # responses read off the translated grammar (every alternative of every rule, including rules the generators do not
+    # know): proper prefixes are incomplete, verdicts are final
+    sents = C.grammar_sentences()
+    if sents:
+        res = C.parse_stream("corpus", seed, 0, stdin="\n".join(sents) + "\n")
+        cases = []
+        for h, impl, _ in res:
+            v = verdict(impl)
+            if v == "OK":
+                used = int(impl.split(" ")[1])
+                for k in range(1, used):
+                    cases.append((h[:2 * k], "INC", h))
+            if v in ("OK", "ERR"):
+                for x in ("0d0a", "2a2031204558495354530d0a", "78", "29"):
+                    cases.append((h + x, impl, h))
+        if cases:
+            out = C.parse_stream("corpus", seed, 0, stdin="\n".join(c[0] for c in cases) + "\n")
+            for (hc, want, h0), (_, got, _) in zip(cases, out):
+                total += 1
+                seen.add(hc)
+                if want == "INC" and verdict(got) != "INC":
+                    return total, "a proper prefix of an accepted response is not reported incomplete:\nresponse %s\nprefix   %s\nverdict  %s" % (C.show_input(h0), C.show_input(hc), got[:200]), samples, len(seen)
+                if want != "INC" and got != want:
+                    return total, "verdict changed when bytes were appended:\nB   = %s\nB+X = %s\nverdict(B)   = %s\nverdict(B+X) = %s" % (C.show_input(h0), C.show_input(hc), want[:300], got[:300]), samples, len(seen)
+        samples.append("grammar sentences: %d responses read off the translated grammar, %d prefixes and extensions" % (len(sents), len(cases)))
     # the same for response lines far beyond 8 KiB (sampled cuts, dense around 8192)
     rows = C.parse_stream("longline", seed, 5 if tier == "quick" else 60)
     for h, impl, ex in rows:
